@@ -3538,3 +3538,322 @@ def replay_listen_async(steps):
     finally:
         w.stop()
     return res
+
+
+# ======================================================================
+# ListenAddrs: a listen host that resolves to several addresses
+# (specs/Forward/ListenAddrs.tla)
+# ======================================================================
+
+MA_IPS = ['127.0.0.1', '127.0.0.2', '127.0.0.3']
+
+
+def _free_port_all():
+    """a port number that is free on every address of MA_IPS right now"""
+    import socket as _s
+    for _ in range(200):
+        socks = []
+        try:
+            s0 = _s.socket()
+            socks.append(s0)
+            s0.bind((MA_IPS[0], 0))
+            p = s0.getsockname()[1]
+            for ip in MA_IPS[1:]:
+                s1 = _s.socket()
+                socks.append(s1)
+                s1.bind((ip, p))
+            return p
+        except OSError:
+            continue
+        finally:
+            for s_ in socks:
+                s_.close()
+    raise RuntimeError('no port free on all loopback addresses')
+
+
+class MultiAddrWorld:
+    """One SSH connection; listen hosts c20multi<n> resolve to the first n
+    loopback addresses (the resolver is the harness), a bind fails where
+    the harness holds a listening socket on that address and port."""
+
+    def __init__(self):
+        import socket as _s
+        world = self
+        self.loop = loop = new_loop()
+        self.hits = []
+        self.lsn, self.port, self.cfg, self.state = {}, {}, {}, {}
+        self.block_next = []
+        self.blockers = []
+        self.dead = False
+        self.l1 = []
+        k = keys()
+        o_gai, o_cs = loop.getaddrinfo, loop.create_server
+
+        async def getaddrinfo(host, port, **kw):
+            if isinstance(host, str) and host.startswith('c20multi'):
+                n = int(host[len('c20multi'):])
+                return [(_s.AF_INET, _s.SOCK_STREAM, 6, '', (ip, port or 0))
+                        for ip in MA_IPS[:n]]
+            return await o_gai(host, port, **kw)
+
+        async def create_server(factory, host=None, port=None, **kw):
+            sock = kw.get('sock')
+            if sock is not None and world.block_next:
+                # a dynamic listener got its port with the first address:
+                # now that port is busy on the addresses that are to fail
+                p = sock.getsockname()[1]
+                world.dyn_port = p
+                ips, world.block_next = world.block_next, []
+                for ip in ips:
+                    world.block(ip, p)
+            return await o_cs(factory, host, port, **kw)
+        loop.getaddrinfo = getaddrinfo
+        loop.create_server = create_server
+
+        class Server(asyncssh.SSHServer):
+            def connection_made(self, conn):
+                if getattr(world, 'sconn', None) is None:
+                    world.sconn = conn
+
+            def begin_auth(self, username):
+                return False
+
+            def connection_requested(self, dest_host, dest_port, orig_host,
+                                     orig_port):
+                return True
+
+            def server_requested(self, listen_host, listen_port):
+                return True
+
+        async def go():
+            self.acceptor = await asyncssh.listen(
+                '127.0.0.1', 2222, server_factory=Server,
+                server_host_keys=[k['host']])
+            self.dest = await o_cs(lambda: TagEcho(world, 1), R_HOST, R_PORT)
+            self.conn = await asyncssh.connect(
+                '127.0.0.1', 2222, known_hosts=None, config=None,
+                client_keys=None)
+        loop.run_until_complete(go())
+        loop.run_until_idle()
+        self.ct, self.st = loop.net.all_transports[0], loop.net.all_transports[1]
+
+    def flag(self, clause, detail, cause=''):
+        if not any(c == clause and k == cause for c, _, k in self.l1):
+            self.l1.append((clause, detail, cause))
+
+    def block(self, ip, port):
+        import socket as _s
+        s_ = _s.socket()
+        s_.setsockopt(_s.SOL_SOCKET, _s.SO_REUSEADDR, True)
+        try:
+            s_.bind((ip, port))
+            s_.listen(1)
+            self.blockers.append(s_)
+            return True
+        except OSError:
+            s_.close()
+            return False
+
+    def unblock(self):
+        for s_ in self.blockers:
+            s_.close()
+        self.blockers = []
+        self.block_next = []
+
+    def endpoints(self, k):
+        if k not in self.port or not self.port[k]:
+            return []
+        return [a + 1 for a, ip in enumerate(MA_IPS[:self.cfg[k]['n']])
+                if (ip, self.port[k]) in self.loop.net.listeners]
+
+    def listen(self, k, c):
+        """-> did the listen request succeed"""
+        conn, loop = self.conn, self.loop
+        self.cfg[k] = c
+        busy = sorted(c['busy']['$set'] if isinstance(c['busy'], dict)
+                      else c['busy'])
+        host = f'c20multi{c["n"]}'
+        self.dyn_port = None
+        if c['port'] == 'fix':
+            port = _free_port_all()
+            for a in busy:
+                self.block(MA_IPS[a - 1], port)
+        else:
+            port = 0
+            self.block_next = [MA_IPS[a - 1] for a in busy]
+
+        async def go():
+            if c['side'] == 'remote':
+                return await conn.forward_remote_port(host, port, R_HOST,
+                                                      R_PORT)
+            if c['side'] == 'socks':
+                return await conn.forward_socks(host, port)
+            return await conn.forward_local_port(host, port, R_HOST, R_PORT)
+        try:
+            lsn = loop.run_until_complete(go())
+            ok = lsn is not None
+        except (OSError, asyncssh.ChannelListenError):
+            lsn, ok = None, False
+        loop.run_until_idle()
+        self.unblock()
+        self.lsn[k] = lsn
+        self.port[k] = lsn.get_port() if ok else (port or self.dyn_port)
+        self.state[k] = 'open' if ok else 'failed'
+        eps = self.endpoints(k)
+        what = (f'listen request {k} ({c["side"]}, {c["n"]} addresses, '
+                f'port {c["port"]}, bind fails on {busy or "none"})')
+        if not ok and eps:
+            self.flag('NoListenerLeft', f'{what} FAILED but address(es) '
+                      f'{eps} of it keep accepting', 'partial-bind')
+        if ok and eps != list(range(1, c['n'] + 1)):
+            self.flag('AllAddresses', f'{what} succeeded but listens only '
+                      f'on {eps}', c['side'])
+        if ok and busy:
+            self.flag('AllAddresses', f'{what} succeeded although a bind '
+                      'had to fail', c['side'])
+        return ok
+
+    def connect(self, k, a):
+        loop = self.loop
+        c = self.cfg[k]
+        if not self.port.get(k):
+            return 0
+        app = App(self, 'L', True)
+        n_hits = len(self.hits)
+
+        async def cl():
+            await loop.create_connection(lambda: app, MA_IPS[a - 1],
+                                         self.port[k])
+        try:
+            loop.run_until_complete(cl())
+        except OSError:
+            loop.run_until_idle()
+            return 0
+        loop.run_until_idle()
+        skip = 0
+        if c['side'] == 'socks':
+            p = R_PORT
+            for m in (b'\x05\x01\x00', b'\x05\x01\x00\x01\x7f\x00\x00\x01' +
+                      bytes((p >> 8, p & 255))):
+                if not app.lost:
+                    app.t.write(m)
+                loop.run_until_idle()
+            skip = 12
+        ping = b'ping-%d-%d' % (k, a)
+        if not app.lost:
+            app.t.write(ping)
+        loop.run_until_idle()
+        data = bytes(app.data[skip:])
+        served = data == b'D1:' + ping
+        if not app.lost:
+            app.t.close()
+        loop.run_until_idle()
+        live = self.state.get(k) == 'open' and not self.dead
+        what = f'address {a} of listen request {k} ({self.state.get(k)})'
+        if live and not served:
+            self.flag('Routing', f'a connection into {what} was not relayed '
+                      f'to the destination: {data[:30]!r}', c['side'])
+        if not live and (served or len(self.hits) > n_hits):
+            self.flag('NoListenerLeft', f'{what} still accepts and relays '
+                      'over SSH', 'partial-bind'
+                      if self.state.get(k) == 'failed' else 'closed')
+        return k if served else 0
+
+    def close(self, k):
+        lsn = self.lsn[k]
+
+        async def go():
+            lsn.close()
+            await lsn.wait_closed()
+        self.loop.run_until_complete(go())
+        self.loop.run_until_idle()
+        self.state[k] = 'closed'
+        if self.endpoints(k):
+            self.flag('NoListenerLeft', f'listener {k} was closed but '
+                      f'address(es) {self.endpoints(k)} keep accepting',
+                      'closed')
+
+    def end(self, how):
+        self.dead = True
+        if how == 'cclose':
+            self.conn.close()
+        elif how == 'sclose':
+            self.sconn.close()
+        else:
+            self.ct.cut()
+        self.loop.run_until_idle()
+        self.check_left('the SSH connection ended')
+
+    def check_left(self, when):
+        for k in sorted(self.cfg):
+            eps = self.endpoints(k)
+            if eps:
+                self.flag('NoListenerLeft', f'{when}: address(es) {eps} of '
+                          f'listen request {k} ({self.state.get(k)}) keep '
+                          'accepting', 'partial-bind'
+                          if self.state.get(k) == 'failed' else 'connection-end')
+
+    def finish(self):
+        if not self.dead:
+            self.end('cclose')
+
+    def stop(self):
+        try:
+            self.unblock()
+            self.conn.abort()
+            self.acceptor.close()
+            for srv in list(self.loop.net.listeners.values()):
+                srv.close()
+            self.loop.run_until_idle()
+        except BaseException:           # pylint: disable=broad-except
+            pass
+        close_loop(self.loop)
+
+
+def replay_listen_addrs(steps):
+    """steps: [(lbl, state)] of a ListenAddrs.tla behaviour or bare labels"""
+    w = MultiAddrWorld()
+    res = {'l1': [], 'diverged': None, 'script': []}
+    try:
+        for i, step in enumerate(steps):
+            lbl, st = step if isinstance(step, tuple) and len(step) == 2 \
+                and isinstance(step[1], dict) else (step, None)
+            op, k = lbl[0], lbl[1]
+            div = None
+            if op == 'listen':
+                c = lbl[2]
+                busy = sorted(c['busy']['$set'] if isinstance(c['busy'], dict)
+                              else c['busy'])
+                ok = w.listen(k, c)
+                res['script'].append(f'listen{k}:{c["side"]}/{c["n"]}/'
+                                     f'{c["port"]}/busy{busy}={ok}')
+                if ok != (not busy):
+                    div = f'listen {k}: code={ok} model={not busy}'
+            elif op == 'connect':
+                got = w.connect(k, lbl[2])
+                res['script'].append(f'conn{k}.{lbl[2]}->{got}')
+                if len(lbl) > 3 and got != lbl[3]:
+                    div = f'connect {k}.{lbl[2]}: code={got} model={lbl[3]}'
+            elif op == 'close':
+                w.close(k)
+                res['script'].append(f'close{k}')
+            elif op == 'end':
+                w.end(k)
+                res['script'].append(f'end:{k}')
+            if st is not None and div is None:
+                for j in sorted(w.cfg):
+                    want = st['ep'][j - 1]
+                    want = sorted(want['$set'] if isinstance(want, dict)
+                                  else want)
+                    if w.endpoints(j) != want:
+                        div = (f'{op}: endpoints of request {j}: code='
+                               f'{w.endpoints(j)} model={want}')
+            if div and not res['diverged']:
+                res['diverged'] = f'step {i}: {div}'
+        w.finish()
+        res['l1'] = list(w.l1)
+        res['loop_exceptions'] = [repr(c.get('exception') or c.get('message'))
+                                  for c in w.loop.exceptions]
+    finally:
+        w.stop()
+    return res
